@@ -8,6 +8,17 @@ Mirrors, as the code is,
                                   assumed to succeed), `ResolveToken` (outcome classification)
   * agent/consul/acl_server.go    `Server.ResolveIdentityFromToken` (state-store backed, primary DC)
   * agent/consul/rpc.go           `maskResultsFilteredByACLs`
+  * agent/consul/acl.go           the retry loops of `resolveTokenToIdentityAndPolicies` and
+                                  `resolveTokenToIdentityAndRoles` (`resolveLoop`: up to 5 rounds, the expiry
+                                  check in every round, `maybeHandleIdentityErrorDuringFetch`), and the entry
+                                  points built on them (`ResolveToken`, `ResolveTokenAndDefaultMeta`, the cores
+                                  of `ACL.PolicyResolve` / `ACL.RoleResolve`; agents resolve through the same
+                                  `ACLResolver` with the client backend = `Backend.remote`)
+  * agent/consul/acl_endpoint.go  expiry handling of `ACL.TokenRead`, `ACL.TokenList`;
+    agent/consul/acl_token_exp.go the reaper
+What resolving the role and policy links of an identity does with its TTL caches is C08's subject
+(CV/AclRpc.lean `collect`, `resolveLinks`); here its result is an oracle (`LinkAns`): the theorems
+hold for every answer sequence, so they do not depend on the contents of those caches.
 Time is a `Nat` (any unit); `0` is Go's zero `time.Time`. The identity cache is an association list
 keyed by the token secret (no eviction: the LRU is assumed large enough). Core-only Lean.
 -/
@@ -19,6 +30,7 @@ structure Token where
   accessor : String
   exp      : Option Nat        -- `ExpirationTime`: `none` = nil pointer, `some 0` = the zero time
   grants   : List String       -- what the token's policies allow (abstract)
+  link     : Nat := 0          -- 0: no links (service identities only), 1: a policy link, 2: a role link
 deriving DecidableEq, Repr
 
 /-- `HasExpirationTime`: `t.ExpirationTime != nil && !t.ExpirationTime.IsZero()` -/
@@ -130,5 +142,108 @@ def mask (cfg : Cfg) (b : Backend) (c : Cache) (secret : String) (anonAccessor a
   else match resolveIdentity cfg b c secret now with
     | (c', .ident t) => if t.accessor = anonAccessor ∧ t.secret = anonSecret then (c', false) else (c', flag)
     | (c', _) => (c', false)
+
+/-! ## All rounds: the retry loops and the entry points built on them -/
+
+/-- What resolving the role / policy links of the identity comes to in one round (RPC mode):
+    `ok`; the primary says the *token* is unknown (`acl.ErrNotFound` at top level — also what it says
+    for an expired token); permission denied (our view of the token is stale: retry); any other
+    failure without usable cached links (`ACLRemoteError`). The first two also drop the identity from
+    the cache (`maybeHandleIdentityErrorDuringFetch`). -/
+inductive LinkAns | ok | notFound | permDenied | error
+deriving DecidableEq, Repr
+
+/-- Which loop: `ResolveToken` (policies, through roles), the core of `ACL.PolicyResolve`, the core of
+    `ACL.RoleResolve`. The control flow is the same; they differ in which links they follow. -/
+inductive EntryPoint | token | policies | roles
+deriving DecidableEq, Repr
+
+/-- Does this entry point perform a link fetch for this identity? -/
+def needsLink (ep : EntryPoint) (t : Token) : Bool :=
+  match ep with
+  | .roles => t.link == 2
+  | _ => t.link != 0
+
+/-- One round's inputs from the outside world (RPC mode). -/
+structure Round where
+  rpc  : Rpc
+  link : LinkAns
+deriving DecidableEq, Repr
+
+inductive LoopRes
+  | ok (t : Token)
+  | notFound
+  | remoteErr
+  | denied          -- `tokenPolicyResolutionMaxRetries` rounds of permission denied: `lastIdentity, nil, lastErr`
+  | noScript        -- the caller supplied fewer rounds than the loop consumed (engine: `bad-op`)
+deriving DecidableEq, Repr
+
+/-- `resolveTokenToIdentityAndPolicies` / `resolveTokenToIdentityAndRoles`: `for i := 0; i < 5; i++`.
+    `store = some _`: server-backed (links are read from the state store, never fail).
+    All rounds of one call see the same clock value (they are microseconds apart). -/
+def resolveLoop (cfg : Cfg) (ep : EntryPoint) (store : Option (List Token)) :
+    Nat → Cache → List Round → String → Nat → Cache × LoopRes
+  | 0, c, _, _, _ => (c, .denied)
+  | _ + 1, c, [], _, _ => (c, .noScript)
+  | fuel + 1, c, r :: rest, secret, now =>
+    let b : Backend := match store with
+      | some st => .server st
+      | none => .remote r.rpc
+    match resolveIdentity cfg b c secret now with
+    | (c', .ident t) =>
+      if t.isExpired now then (c', .notFound)
+      else if !needsLink ep t || store.isSome then (c', .ok t)
+      else match r.link with
+        | .ok => (c', .ok t)
+        | .notFound => (c'.remove t.secret, .notFound)
+        | .permDenied => resolveLoop cfg ep store fuel (c'.remove t.secret) rest secret now
+        | .error => (c', .remoteErr)
+    | (c', .notFound) => (c', .notFound)
+    | (c', .remoteErr) => (c', .remoteErr)
+
+/-- `tokenPolicyResolutionMaxRetries` = `tokenRoleResolutionMaxRetries` = 5 -/
+def maxRetries : Nat := 5
+
+inductive Outcome2
+  | granted (t : Token)
+  | notFound
+  | down (allowAll : Bool)
+  | denied
+  | noScript
+deriving DecidableEq, Repr
+
+/-- `ResolveToken` (= `ResolveTokenAndDefaultMeta` up to enterprise-meta defaulting) over the loop. -/
+def resolveTokenAll (cfg : Cfg) (store : Option (List Token)) (c : Cache) (script : List Round) (secret : String)
+    (now : Nat) : Cache × Outcome2 :=
+  match resolveLoop cfg .token store maxRetries c script secret now with
+  | (c', .ok t) => (c', .granted t)
+  | (c', .notFound) => (c', .notFound)
+  | (c', .remoteErr) => (c', .down (cfg.down = .allow))
+  | (c', .denied) => (c', .denied)
+  | (c', .noScript) => (c', .noScript)
+
+/-! ## Token endpoints and the reaper (server side, over the state store) -/
+
+/-- `ACL.TokenRead` by secret: an expired token is "not found" although it is still stored. -/
+def tokenRead (store : List Token) (secret : String) (now : Nat) : Option Token :=
+  match store.find? fun t => t.secret = secret with
+  | some t => if t.isExpired now then none else some t
+  | none => none
+
+/-- `ACL.TokenList`: expired tokens are skipped. -/
+def tokenList (store : List Token) (now : Nat) : List Token := store.filter fun t => !t.isExpired now
+
+/-- `ACLTokenListExpired` as a specification: the tokens with an expiration time before `asOf`. (The
+    real index has one-second granularity and the scan stops at the first token that is not yet
+    expired, so one run may return only a part of this list; the rest follows within a second.) -/
+def listExpired (store : List Token) (asOf : Nat) : List Token := store.filter fun t => t.isExpired asOf
+
+/-- One reaper run deleted the tokens with these accessors: acceptable iff each of them is stored and
+    expired (`reapExpiredACLTokens` deletes what `ACLTokenListExpired` returned). -/
+def reapOk (store : List Token) (now : Nat) (reaped : List String) : Bool :=
+  reaped.all fun a => (listExpired store now).any fun t => t.accessor = a
+
+def reapApply (store : List Token) (reaped : List String) : List Token :=
+  store.filter fun t => !reaped.contains t.accessor
 
 end CV.Filter.Expiry
